@@ -26,6 +26,9 @@ def setup(J):
         add("g2", 1, 1, "cmd", two_wf=True, id="C12-two-workflows-g2-cmd")
         if not q:
             add("g14", 1, 2); add("g4", 2, 2); add("g6", 1, 2); add("g3", 2, 2); add("g14", 2, 2, mode="delay", delay=2, id="C12-g14-i2-m2-delay"); add("g12", 3, 2, mode="delay", delay=2, id="C12-g12-i3-delay")
+        # two branches that share nothing but the sink, shell commands: the first command formatting of p and of q is
+        # ordered by no channel (package-level state touched by NewTask / formatCommand shows up here)
+        add("g9", 1, 2, "cmd", id="C12-g9-i1-m2-cmd")
         # a streaming out-port (real FIFO, see C17): the consumer gets the IP while the producing task is still running
         jobs.append({"id": "C12-stream-n1", "prop": "C12", "kind": "stream", "mode": "delay", "delay": 1, "budget": J.budget(tier, 30, 200), "oracles": [], "events_dep": False, "force_all": -1, "race": True,
                      "args": {"n": "1", "size": "1", "max": "2", "only_classes": "none"}})
